@@ -1,5 +1,6 @@
 import Mp4ff.Model.Segmenter
 import Mp4ff.Lemmas.C09A
+import Mp4ff.Lemmas.C11R
 /-!
 C11 (segmenting, resegmenting and fragmenting conserve every sample): proofs.
 `fragmentify_durations` is false as stated (zero-duration samples); see the counterexample and the `_partial` / `_pos`
@@ -8,74 +9,6 @@ variants below.
 namespace Mp4ff.Segmenter
 open Mp4ff.Stbl
 
-
-theorem rfold_flatten (chunkDur : Nat) (samples : List Sample) : ∀ st : RSt,
-    let st' := samples.foldl (rstep chunkDur) st
-    (st'.done ++ [st'.cur]).flatten = (st.done ++ [st.cur]).flatten ++ samples := by
-  induction samples with
-  | nil => intro st; simp
-  | cons s ss ih =>
-    intro st
-    simp only [List.foldl_cons]
-    have := ih (rstep chunkDur st s)
-    simp only at this
-    rw [this]
-    simp only [rstep]
-    split <;> simp
-
-theorem resegment_conserves (chunkDur t0 : Nat) (samples : List Sample) :
-    (resegment chunkDur t0 samples).flatten = samples := by
-  unfold resegment
-  have := rfold_flatten chunkDur samples { time := t0 }
-  simpa using this
-
-def SyncStart (g : List Sample) : Prop := ∃ s rest, g = s :: rest ∧ s.sync = true
-
-def RInv (st : RSt) : Prop := (∀ g ∈ st.done.tail, SyncStart g) ∧ (st.done ≠ [] → SyncStart st.cur)
-
-theorem rstep_inv (chunkDur : Nat) (st : RSt) (s : Sample) (h : RInv st) : RInv (rstep chunkDur st s) := by
-  obtain ⟨h1, h2⟩ := h
-  simp only [rstep]
-  split
-  · rename_i hc
-    refine ⟨?_, fun _ => ⟨s, [], rfl, hc.2⟩⟩
-    simp only
-    intro g hg
-    cases hd : st.done with
-    | nil => simp [hd] at hg
-    | cons a l =>
-      rw [hd] at hg h1
-      simp only [List.cons_append, List.tail_cons, List.mem_append, List.mem_singleton] at hg h1
-      rcases hg with hg | rfl
-      · exact h1 g hg
-      · exact h2 (by simp [hd])
-  · refine ⟨h1, ?_⟩
-    simp only
-    intro hne
-    obtain ⟨a, r, e, hs⟩ := h2 hne
-    exact ⟨a, r ++ [s], by simp [e], hs⟩
-
-theorem rfold_inv (chunkDur : Nat) (samples : List Sample) : ∀ st : RSt, RInv st →
-    RInv (samples.foldl (rstep chunkDur) st) := by
-  induction samples with
-  | nil => intro st h; exact h
-  | cons s ss ih => intro st h; exact ih _ (rstep_inv chunkDur st s h)
-
-theorem resegment_starts_sync (chunkDur t0 : Nat) (samples : List Sample) :
-    ∀ g ∈ (resegment chunkDur t0 samples).tail, ∃ s rest, g = s :: rest ∧ s.sync = true := by
-  unfold resegment
-  have := rfold_inv chunkDur samples { time := t0 } ⟨by simp, by simp⟩
-  obtain ⟨h1, h2⟩ := this
-  intro g hg
-  simp only at hg
-  cases hd : (samples.foldl (rstep chunkDur) { time := t0 }).done with
-  | nil => simp [hd] at hg
-  | cons a l =>
-    rw [hd] at hg h1
-    simp only [List.cons_append, List.tail_cons, List.mem_append, List.mem_singleton] at hg h1
-    rcases hg with hg | rfl
-    · exact h1 g hg
-    · exact h2 (by simp [hd])
 
 theorem fstep_out (duration : Nat) (st : FSt) (s : Sample) :
     (fstep duration st s).out.flatten = st.out.flatten ++ [s] ∧
